@@ -39,11 +39,16 @@ Definition and3f (f g : arow -> dv) : arow -> dv :=
            | DBool true, DBool true => DBool true
            | _, _ => DNull
            end.
+Definition digit_of (c : ascii) : option Z :=
+  match c with
+  | "0"%char => Some 0%Z | "1"%char => Some 1%Z | "2"%char => Some 2%Z | "3"%char => Some 3%Z | "4"%char => Some 4%Z
+  | "5"%char => Some 5%Z | "6"%char => Some 6%Z | "7"%char => Some 7%Z | "8"%char => Some 8%Z | "9"%char => Some 9%Z
+  | _ => None
+  end.
 Fixpoint digitsz (s : string) (acc : Z) : option Z :=
   match s with
   | EmptyString => Some acc
-  | String c r => let n := Z.of_nat (nat_of_ascii c) in
-                  if ((48 <=? n) && (n <=? 57))%Z then digitsz r (acc * 10 + (n - 48))%Z else None
+  | String c r => match digit_of c with Some d => digitsz r (acc * 10 + d)%Z | None => None end
   end.
 Definition is_pvar (s : string) : bool := match s with String "?"%char _ => true | _ => false end.
 Definition join_kw (s : string) : bool :=
